@@ -120,6 +120,15 @@ func (u *Upstream) ExchangeContext(ctx context.Context, q []byte) (*[]byte, erro
 
 	select {
 	case <-ctx.Done():
+		// A reply may have been received before ctx was done.
+		select {
+		case res := <-resChan:
+			if r := res.r; r != nil {
+				binary.BigEndian.PutUint16(*r, binary.BigEndian.Uint16(q))
+				return r, nil
+			}
+		default:
+		}
 		return nil, context.Cause(ctx)
 	case res := <-resChan:
 		r := res.r
